@@ -501,3 +501,59 @@ Definition is_isometry (N : list (list Zi)) (D : Z) (d : nat) : bool :=
   forallb (fun p => forallb (fun q =>
      zi_eqb (zisum (map (fun r => zimul (ziconj (mget zi0 N r p)) (mget zi0 N r q)) rows))
             (if Nat.eqb p q then (D * D, 0)%Z else zi0)) (seq 0 d)) (seq 0 d).
+
+(* ====================================================================== *)
+(*  9. Instruction sequences (passive/simulation_steps.py): gates, losses and
+       post-selections in program order.  A gate / loss step addresses positions of the
+       ACTIVE numbering at the time it is applied (simulation_steps.py:_apply_matrix_on_modes:
+       actual = active[modes]; embedded = identity(total); embedded[actual x actual] = M;
+       interferometer = embedded @ interferometer).  The reference keeps, next to the
+       transmission rows T, the rows L of the loss modes of the dilation: a step with
+       contraction M/Dm and complement C/Dm (M^dagger M + C^dagger C = Dm^2 I) appends
+       C . T[actual rows]; the final [T; L] is checked to be an isometry. *)
+(* ====================================================================== *)
+Inductive step :=
+| SGate (modes : list nat) (M C : list (list Zi)) (Dm : Z)
+| SPost (modes : list nat) (counts : list Z).
+
+Definition index_opt (x : nat) (l : list nat) : option nat :=
+  (fix go (l : list nat) (i : nat) : option nat :=
+     match l with [] => None | y :: r => if Nat.eqb x y then Some i else go r (S i) end) l 0%nat.
+
+Definition zi_mat_mul (A B : list (list Zi)) : list (list Zi) :=
+  let ncols := length (nth 0 B []) in
+  map (fun r => map (fun j => zisum (map (fun k => zimul (nth k r zi0) (mget zi0 B k j))
+                                         (seq 0 (length B)))) (seq 0 ncols)) A.
+
+Definition embed (total : nat) (actual : list nat) (M : list (list Zi)) (Dm : Z) : list (list Zi) :=
+  map (fun i => map (fun j =>
+         match index_opt i actual, index_opt j actual with
+         | Some a, Some b => mget zi0 M a b
+         | _, _ => if Nat.eqb i j then (Dm, 0%Z) else zi0
+         end) (seq 0 total)) (seq 0 total).
+
+Definition zi_identity (n : nat) : list (list Zi) :=
+  map (fun i => map (fun j => if Nat.eqb i j then zi1 else zi0) (seq 0 n)) (seq 0 n).
+
+Record seq_state := {
+  q_T : list (list Zi); q_L : list (list Zi); q_D : Z; q_dct : psdict; q_cutoff : Z
+}.
+
+Definition apply_step (total : nat) (st : seq_state) (sp : step) : seq_state :=
+  match sp with
+  | SGate modes M C Dm =>
+      let act := active_modes total (ps_modes (q_dct st)) in
+      let actual := map (fun m => nth m act 0%nat) modes in
+      let T' := zi_mat_mul (embed total actual M Dm) (q_T st) in
+      let rows := map (fun a => nth a (q_T st) []) actual in
+      let L' := map (map (ziscale Dm)) (q_L st) ++
+                (match C with [] => [] | _ => zi_mat_mul C rows end) in
+      {| q_T := T'; q_L := L'; q_D := (q_D st * Dm)%Z; q_dct := q_dct st; q_cutoff := q_cutoff st |}
+  | SPost modes counts =>
+      let '(dct', c') := set_postselection total (q_dct st) (q_cutoff st) modes counts in
+      {| q_T := q_T st; q_L := q_L st; q_D := q_D st; q_dct := dct'; q_cutoff := c' |}
+  end.
+
+Definition run_sequence (total : nat) (cutoff0 : Z) (steps : list step) : seq_state :=
+  fold_left (apply_step total) steps
+            {| q_T := zi_identity total; q_L := []; q_D := 1%Z; q_dct := []; q_cutoff := cutoff0 |}.
